@@ -30,9 +30,9 @@ type poolLog struct {
 }
 
 var (
-	poolMu    sync.Mutex
-	poolLogs  = map[uintptr]*poolLog{}
-	poolWatch = map[uintptr]bool{} // pools whose events are recorded
+	poolMu     sync.Mutex
+	poolLogs   = map[uintptr]*poolLog{}
+	poolWatch  = map[uintptr]bool{} // pools whose events are recorded
 	poolPoison = true
 )
 
